@@ -6,7 +6,7 @@ import os
 import sys
 
 
-def install(dt_modules=(), struct_modules=(), extra=None):
+def install(dt_modules=("ramses_tx.helpers", "ramses_tx.parsers"), struct_modules=(), td_modules=("ramses_tx.parsers",), extra=None):
     """Activate the instrumenting importer for ramses_tx / ramses_rf (from SYMX_SRC_ROOT, default
     /repo/src) and register per-module substitutions.  Logging is disabled (handlers off; message
     arguments are still evaluated because the code builds them eagerly)."""
@@ -14,6 +14,8 @@ def install(dt_modules=(), struct_modules=(), extra=None):
 
     for m in dt_modules:
         instrument.EXTRA_GLOBALS.setdefault(m + ":post", {}).update({"dt": stubs.SxDateTime})
+    for m in td_modules:
+        instrument.EXTRA_GLOBALS.setdefault(m + ":post", {}).update({"td": stubs.SxTimeDelta})
     for m in struct_modules:
         instrument.EXTRA_GLOBALS.setdefault(m + ":post", {}).update({"struct": stubs.SxStruct})
     for m, d in (extra or {}).items():
